@@ -207,6 +207,19 @@ def check(prog, rep):
         ok = any(kind == k and any(meth in str(x) for x in acts) for kind, acts in order)
         rep.pin("solution handles", "R07.4", "Solution.__getitem__", ok, f"{k} handles are answered by {meth}" if ok else f"{k} handles are not dispatched to {meth}", loc=gi.loc, detail=f"dispatch:{k}")
 
+    # artefacts built under one sense (negated callables, LPData.sense / sign of c) are only valid while the sense
+    # stands: every public edit of the sense must invalidate them (the must-analysis of C13 R13.1, re-evaluated here)
+    from ..report import Report as _Report
+    from . import c13 as _c13
+    _sub = _Report(rep.prop, rep.tier, quiet=True)
+    try:
+        _c13.check(prog, _sub)
+    except AnalysisError as e:
+        rep.undecided(f"sense-edit invalidation (C13 R13.1): {e}")
+    else:
+        for o in _sub.obs:
+            if o.rule == "R13.1" and o.construct in ("Problem.minimize", "Problem.maximize"):
+                rep.ob("R07.2", o.construct, o.ok, ("switching the sense invalidates what was built under the old one: " if o.ok else "a sense switch can keep artefacts built under the old sense (negated callables / LP data) while the reported value is un-negated under the new one: ") + o.msg, loc=o.loc, detail="sense-edit:" + o.detail)
     rep.expect_min("R07.1", 2)
     rep.expect_min("R07.2", 3)
     rep.expect_min("R07.3", 5)
